@@ -923,6 +923,9 @@ def c05_classify(case, impl, why):
             return "varptr-argument-not-visited"
         if re.search(r"HCIRCLE[^:]*,,", body):
             return "hoisted-call-captured-by-default-colour"
+        ms = re.search(r"STRING\$ *\(([^,()]*),([^()]*)\)", body)
+        if ms and "ecb_string" in why and "arr_ST$" in out and not re.search(r"\$|\"", ms.group(2)):
+            return "string-func-numeric-code"      # STRING$(n, <numeric code>) is read as the array ST$ (see C03)
     return None
 
 
